@@ -182,6 +182,7 @@ type Rec struct {
 	Waits    int    `json:"waits,omitempty"` // times the caller joined a wait set
 	Spins    int    `json:"spins,omitempty"` // Gosched calls
 	Now      int64  `json:"now,omitempty"`   // virtual time at call
+	NowRet   int64  `json:"now_ret,omitempty"` // virtual time at return (differs only when the clock ticks inside a phase)
 	Nested   bool   `json:"nested,omitempty"`
 	CBID     int    `json:"cbid,omitempty"` // callback id installed by this op
 	Ticks    []int64 `json:"ticks,omitempty"` // Advance: the instants at which a janitor tick was delivered
@@ -266,6 +267,9 @@ func (w *World) end(r *Rec) {
 	}
 	yieldUser()
 	r.Ret = w.seq()
+	if w.sim != nil {
+		r.NowRet = w.sim.Now()
+	}
 	r.Pending = false
 }
 
